@@ -23,7 +23,8 @@ ACTIONS_QUICK = ["keep", "del", "src1", "src3", "src4", "src6", "rerun", "ec", "
 ACTIONS_FULL = sorted(set(G.CODE_ACTIONS + G.MD_ACTIONS), key=lambda a: (G.CODE_ACTIONS + G.MD_ACTIONS).index(a))
 ACTIONS_PAIR = ["keep", "del", "src1", "src6", "rerun", "out_edit", "md_edit", "dup", "att_edit"]
 ACTIONS_F12 = ["src1"]
-ACTIONS_RENDER = ["keep", "src1", "src4", "rerun", "out_edit", "md_edit", "id", "att_edit", "del"]
+ACTIONS_RENDER = ["keep", "src1", "src4", "rerun", "out_edit", "md_edit", "id", "att_edit", "del", "md_empty_add",
+                  "md_empty_set"]
 INSERTS = [None, "N1", "N2", "Nm"]
 
 
@@ -33,6 +34,12 @@ def _applicable(action, tmpl):
         return t["type"] == "markdown"
     if action in ("tag_front", "tag_back"):
         return bool(t.get("tags"))
+    if action in ("att_edit_1", "md_edit_2024", "md_edit_note"):
+        return bool(t.get("intkeys"))
+    if action == "md_src":
+        return bool(t.get("md")) or bool(t.get("collapsed"))
+    if action == "collapsed_src":
+        return t["type"] == "code"
     if action in ("md_scrolled_true", "md_scrolled_auto"):
         return bool(t.get("scrolled"))
     if action == "md_del_collapsed":
@@ -187,7 +194,7 @@ def make_unrelated(ta, tb, ids=(0, 1), files=0, props=("C01",), known=(),
 
 ALL_TEMPLATES = ["codeA", "codeB", "codeA0", "codeErr", "codeDisp", "codeRes2", "codeJobj",
                  "codeJlol", "codeJloo", "codeJsc", "codeS", "md", "mdAtt", "raw", "codeT",
-                 "codeL", "codeU", "codeEmp", "codeMime", "codeTr", "codeLol"]
+                 "codeL", "codeU", "codeEmp", "codeMime", "codeTr", "codeLol", "mdAtt1"]
 
 
 def shards(tier, props, known, files=None, lite=False):
